@@ -186,6 +186,12 @@ class ListeningConnection(Connection):
         # The connection is connected at this point. The state needs to be set
         # before the initialization: the connection could get closed during it
         await connection.set_state(ConnectionState.CONNECTED)
+        if connection.state != ConnectionState.CONNECTED:
+            # A listener disconnected the connection while the CONNECTED state
+            # was being reported: do not register / initialize a closed
+            # connection
+            return
+
         await self.network.on_peer_accepted(connection)
 
 
